@@ -1,7 +1,7 @@
 (** Dispatcher of executable models: property id -> run function.
     [run prop ops] maps each harness operation of a case to the model's
     canonical output tokens. *)
-From Ferrous Require Import Base.Bytes Model.Resp Model.RunBase Model.RunSrv Model.RunC04 Model.RunPubSub Model.RunScan Model.RunLua Model.RunBlk.
+From Ferrous Require Import Base.Bytes Model.Resp Model.RunBase Model.RunSrv Model.RunC04 Model.RunPubSub Model.RunScan Model.RunLua Model.RunBlk Model.RunAof Model.RunRdb.
 Open Scope Z_scope.
 
 Definition run (prop : bytes) (ops : list (list tok)) : list (list tok) :=
@@ -10,6 +10,7 @@ Definition run (prop : bytes) (ops : list (list tok)) : list (list tok) :=
   else if beq prop (bs "C01") || beq prop (bs "C03") || beq prop (bs "C17")
           || beq prop (bs "C18") || beq prop (bs "C07") || beq prop (bs "C08") || beq prop (bs "C05")
           || beq prop (bs "C02") || beq prop (bs "C06") || beq prop (bs "C15") || beq prop (bs "C16") then run_srv ops
+  else if beq prop (bs "C11") then run_c11 ops
   else if beq prop (bs "C12") then run_c12 ops
   else if beq prop (bs "C14") then
     (* in-process PubSubManager histories, or server-level histories over TCP (first op CONN) *)
@@ -19,4 +20,5 @@ Definition run (prop : bytes) (ops : list (list tok)) : list (list tok) :=
     end
   else if beq prop (bs "C19") then run_c19 ops
   else if beq prop (bs "C13") then run_c13 ops
+  else if beq prop (bs "C09") || beq prop (bs "C10") then run_rdb ops
   else [[TB (bs "NOMODEL")]].
